@@ -57,15 +57,14 @@ def exact(x: Any) -> Optional[Fraction]:
 
 
 def tolerance(a, b) -> Fraction:
-    """The documented 1e-20 tolerance under its most lenient reading: in units of the larger prefix
-    of the two operands, and never less than 1e-20 absolute."""
+    """The documented tolerance: 20 decimal places of the unit both operands are scaled to for the comparison, which the library
+    documents (prefix._scale_to_smaller) as the SMALLER of the two prefixes."""
     from hdl21.prefix import Prefixed
 
-    exps = [0]
+    exps = []
     for x in (a, b):
-        if isinstance(x, Prefixed):
-            exps.append(x.prefix.value)
-    return TOL * Fraction(10) ** max(exps)
+        exps.append(x.prefix.value if isinstance(x, Prefixed) else 0)  # (plain numbers enter as UNIT)
+    return TOL * Fraction(10) ** min(exps)
 
 
 _state = {"rec": None, "attached": False}
